@@ -220,7 +220,7 @@ def bbox_of(segs):
     return (min(xs), min(ys), max(xs), max(ys))
 
 
-def gen_doc(rng, pool=None, solid_only=False, max_items=4, allow_groups=True, viewbox=None, allow_special=True, var_opaque=False):
+def gen_doc(rng, pool=None, solid_only=False, max_items=4, allow_groups=True, viewbox=None, allow_special=True, var_opaque=False, stress=False):
     """One source.  `pool` is a list of (kind, base segments) shared between the documents of
     one font so that shapes recur under isometries/scales (cross-glyph reuse)."""
     if viewbox is None:
@@ -242,8 +242,20 @@ def gen_doc(rng, pool=None, solid_only=False, max_items=4, allow_groups=True, vi
                 pool.append((kind, segs))
         iso = isometry(rng)
         size = unit * rng.uniform(0.25, 0.5) * scale
+        if stress and rng.random() < 0.2:
+            size = unit * rng.choice([0.02, 0.9])  # tiny donors / huge reuse scales
         t = tuple(v * size for v in iso[:4]) + (vx + vw * rng.uniform(0.3, 0.7), vy + vh * rng.uniform(0.3, 0.7))
+        if stress and rng.random() < 0.3:  # non-uniform scale / shear of the recurring shape
+            k = rng.choice([(1, 0, 0, 0.5), (0.6, 0, 0, 1), (1, 0, 0.4, 1)])
+            t = (t[0] * k[0] + t[2] * k[1], t[1] * k[0] + t[3] * k[1], t[0] * k[2] + t[2] * k[3], t[1] * k[2] + t[3] * k[3], t[4], t[5])
+        if stress and rng.random() < 0.15:  # large translation: partly outside the viewBox
+            t = t[:4] + (vx + vw * rng.choice([-0.4, 1.4]), vy + vh * rng.choice([-0.3, 1.3]))
         placed = apply_affine(t, segs)
+        if stress and rng.random() < 0.25:  # near miss: one point moved just inside / outside the tolerance
+            i = rng.randrange(len(placed))
+            dlt = rng.choice([0.03, 0.08, 0.15, 0.3])
+            sg = placed[i]
+            placed[i] = sg[:-1] + ((sg[-1][0] + dlt, sg[-1][1] - dlt),)
         fill = gen_solid(rng, allow_special) if (solid_only or rng.random() < 0.55) else gen_gradient(rng, bbox_of(placed))
         op = rng.choice([1.0, 1.0, 1.0, 0.5, 0.8]) if not solid_only or rng.random() < 0.3 else 1.0
         if var_opaque and isinstance(fill, Solid) and fill.css.startswith("var("):
